@@ -232,6 +232,27 @@ def loop_adjust_pre():
     return {1: mk("i, j", tot), 2: mk("i", "from->length - (size_t)i"), 3: mk("j", "to->length - (size_t)j")}
 
 
+PRELUDE4 = "int jpv_it; _Bool jpv_early; size_t jpv_k_ret;\n"
+
+
+def c_signpre():
+    pre = [fresh("signature"), fresh("params"), fresh("sk"), fresh("precomputed"), fresh("message"), "0 <= sk->l", "__CPROVER_is_fresh(sk->b, (size_t)sk->l * sizeof(*sk->b))",
+           "__CPROVER_is_fresh(attrs, sizeof(*attrs))", "attrs->length <= (size_t)2147483647", "__CPROVER_is_fresh(attrs->attrs, attrs->length * sizeof(*attrs->attrs))",
+           "jpv_it == 0 && jpv_early == 0"]
+    post = ["jpv_early || jpv_it == sk->l", "jpv_early ==> jpv_k_ret == attrs->length"]
+    return req(*pre) + assigns("*signature", "jpv_it", "jpv_early", "jpv_k_ret") + ens(*post)
+
+
+def loop_signpre():
+    inv = ["0 <= i && i <= sk->l", "jpv_it == i", "!jpv_early", "0 <= k && (size_t)k <= attrs->length"]
+    outer = ("__CPROVER_assigns(@LOCALS@, i, signature->a0, jpv_it, jpv_early, jpv_k_ret)\n" + "".join("__CPROVER_loop_invariant(%s)\n" % v for v in inv) + "__CPROVER_decreases(sk->l - i)\n")
+    inner = ("__CPROVER_assigns(k)\n__CPROVER_loop_invariant(0 <= k && (size_t)k <= attrs->length)\n__CPROVER_decreases(attrs->length - (size_t)k)\n")
+    return {1: outer, ("begin", 1): "jpv_it++;", 2: inner}
+
+
+GHOST_SIGNPRE = {"wkdibe::sign_precomputed": [(r"^\s*return;\s*$", "before", "jpv_early = 1; jpv_k_ret = (size_t)k;")]}
+
+
 def c_precompute():
     pre = [fresh("precomputed"), fresh("params"), fresh("attrs"), "attrs->length <= (size_t)2147483647", "__CPROVER_is_fresh(attrs->attrs, attrs->length * sizeof(*attrs->attrs))",
            "jpv_h == attrs->attrs", "jpv_cnt == 0", "0 <= jpv_t"]
@@ -273,6 +294,7 @@ def units():
                                       ("wkdibe::adjust_precomputed", c_adjust_pre(), loop_adjust_pre(), ("jpv_vis_t", "!jpv_vis_t"),
                                        {"G1::multiply(const G1 &, const BigInt<256> &)": "{ jpv_visit($1); }", "BigInt<256>::equal": "{ jpv_visit($0); jpv_visit($1); _Bool jpv_nd; return jpv_nd; }",
                                         "BigInt<256>::subtract": "{ _Bool jpv_nd; return jpv_nd; }"}),
+                                      ("wkdibe::sign_precomputed", c_signpre(), loop_signpre(), ("jpv_it == sk->l", "jpv_it == sk->l + 1"), None),
                                       ("wkdibe::precompute", c_precompute(), loop_precompute(), ("jpv_cnt == 1", "jpv_cnt == 2"),
                                        {"G1::multiply(const G1 &, const BigInt<256> &)": "{ if (__CPROVER_same_object($1, jpv_h) && (size_t)__CPROVER_POINTER_OFFSET($1) == (size_t)jpv_t * sizeof(wkdibe_Attribute) + __builtin_offsetof(wkdibe_Attribute, id)) jpv_cnt++; }"})):
         u = BVUnit(q, {q: c}, P, unwind=12, loop_contracts={q: lc}, timeout=900, spec_prelude=PRELUDE2,
@@ -280,6 +302,14 @@ def units():
                    note="loop contracts on the slot loop(s), counts symbolic; every group / sampling callee is a no-op stub (only the integer side is under contract here)")
         u.stub_factory = (lambda tu, e=extra_stub: more_stubs(tu, e))
         u.harness_pre = HAVOC
+        if q == "wkdibe::sign_precomputed":
+            u.props = ["C13", "C14", "C17"]
+            u.label = "wkdibe::sign_precomputed: the fill loop visits every free slot of a key of any size unless the list is exhausted (loop contracts)"
+            u.spec_prelude = PRELUDE4
+            u.ghost = GHOST_SIGNPRE
+            u.harness_pre = ""
+            u.checks = False
+            u.extra = list(u.extra) + ["--bounds-check", "--pointer-check", "--signed-overflow-check"]
         if q == "wkdibe::adjust_precomputed":
             u.props = ["C14", "C12", "C17"]
             u.label = "wkdibe::adjust_precomputed: every entry of both lists, of any length, is consumed (loop contracts)"
